@@ -5,6 +5,7 @@
  * the function pick the other layout or refuse (NULL), never wrap. All
  * writer fields symbolic over their full range; loop-free: proved.
  *
+ * (each clause once per layout: C01.dir.inode.basic.* / C01.dir.inode.ext.*)
  *   C01.dir.inode.size_exact    listing size field = dir_size + 3 (the three
  *                               bytes the format adds), as integers - this is
  *                               what makes readdir see every entry
@@ -46,31 +47,31 @@ void harness(void)
 	}
 	if (i->base.type == SQFS_INODE_DIR) {
 		VERIF_ASSERT((sqfs_u64)i->data.dir.size == (sqfs_u64)w.dir_size + 3 &&
-			     w.dir_size <= SIZE_MAX - 3, "C01.dir.inode.size_exact");
+			     w.dir_size <= SIZE_MAX - 3, "C01.dir.inode.basic.size_exact");
 		VERIF_ASSERT((sqfs_u64)i->data.dir.start_block == (w.dir_ref >> 16) &&
 			     i->data.dir.offset == (w.dir_ref & 0xFFFF),
-			     "C01.dir.inode.start_exact");
+			     "C01.dir.inode.basic.start_exact");
 		VERIF_ASSERT(w.ent_count <= SIZE_MAX - 2 && hlinks <= SIZE_MAX - 2 - w.ent_count &&
 			     (sqfs_u64)i->data.dir.nlink == (sqfs_u64)w.ent_count + hlinks + 2,
-			     "C01.dir.inode.nlink_exact");
-		VERIF_ASSERT(i->data.dir.parent_inode == parent, "C01.dir.inode.parent_xattr");
+			     "C01.dir.inode.basic.nlink_exact");
+		VERIF_ASSERT(i->data.dir.parent_inode == parent, "C01.dir.inode.basic.parent_xattr");
 		VERIF_ASSERT(xattr == 0xFFFFFFFF && w.ent_count < 256,
-			     "C01.dir.inode.basic_only_if_fits");
+			     "C01.dir.inode.basic.basic_only_if_fits");
 		VERIF_COVER(w.dir_size == 0xFFFF - 3);
 	} else {
 		VERIF_ASSERT(i->base.type == SQFS_INODE_EXT_DIR, "C01.dir.inode.basic_only_if_fits");
 		VERIF_ASSERT(w.dir_size <= SIZE_MAX - 3 &&
 			     (sqfs_u64)i->data.dir_ext.size == (sqfs_u64)w.dir_size + 3,
-			     "C01.dir.inode.size_exact");
+			     "C01.dir.inode.ext.size_exact");
 		VERIF_ASSERT((sqfs_u64)i->data.dir_ext.start_block == (w.dir_ref >> 16) &&
 			     i->data.dir_ext.offset == (w.dir_ref & 0xFFFF),
-			     "C01.dir.inode.start_exact");
+			     "C01.dir.inode.ext.start_exact");
 		VERIF_ASSERT(w.ent_count <= SIZE_MAX - 2 && hlinks <= SIZE_MAX - 2 - w.ent_count &&
 			     (sqfs_u64)i->data.dir_ext.nlink == (sqfs_u64)w.ent_count + hlinks + 2,
-			     "C01.dir.inode.nlink_exact");
+			     "C01.dir.inode.ext.nlink_exact");
 		VERIF_ASSERT(i->data.dir_ext.parent_inode == parent &&
 			     i->data.dir_ext.xattr_idx == xattr && i->data.dir_ext.inodex_count == 0 &&
-			     i->payload_bytes_used == 0, "C01.dir.inode.parent_xattr");
+			     i->payload_bytes_used == 0, "C01.dir.inode.ext.parent_xattr");
 		VERIF_COVER(w.dir_size == 0xFFFF - 2);
 	}
 	free(i);
